@@ -538,9 +538,15 @@ R.mutant("twophase-flag-reset-in-else", ENG,
 R.mutant("twophase-dispatch-after-flag-set", ENG,
          sub("        if self._has_events or self.engine._has_events:\n            self.dispatch.begin_twophase(self, transaction.xid)\n\n        self.__in_begin = True\n",
              "        self.__in_begin = True\n        if self._has_events or self.engine._has_events:\n            self.dispatch.begin_twophase(self, transaction.xid)\n\n"), "C23-R7")
-R.mutant("benign-begin-flag-set-next-to-try", ENG,
-         sub("        self.__in_begin = True\n\n        if self._has_events or self.engine._has_events:\n            self.dispatch.begin(self)\n\n        try:\n",
-             "        if self._has_events or self.engine._has_events:\n            self.dispatch.begin(self)\n\n        self.__in_begin = True\n        try:\n"), None)
+# the repair of the finding: the event dispatch moves INSIDE the protected region (the flag must stay set while the
+# listener runs -- a `begin` listener may execute SQL on the connection, test_emit_sql_in_autobegin)
+R.mutant("benign-begin-dispatch-inside-try-finally", ENG,
+         sub("        self.__in_begin = True\n\n        if self._has_events or self.engine._has_events:\n            self.dispatch.begin(self)\n\n"
+             "        try:\n            self.engine.dialect.do_begin(self.connection)\n        except BaseException as e:\n"
+             "            self._handle_dbapi_exception(e, None, None, None, None)\n        finally:\n            self.__in_begin = False\n",
+             "        self.__in_begin = True\n        try:\n            if self._has_events or self.engine._has_events:\n                self.dispatch.begin(self)\n\n"
+             "            try:\n                self.engine.dialect.do_begin(self.connection)\n            except BaseException as e:\n"
+             "                self._handle_dbapi_exception(e, None, None, None, None)\n        finally:\n            self.__in_begin = False\n"), None)
 R.mutant("benign-twophase-flag-set-inside-try", ENG,
          sub("        self.__in_begin = True\n        try:\n            self.engine.dialect.do_begin_twophase(self, transaction.xid)\n",
              "        try:\n            self.__in_begin = True\n            self.engine.dialect.do_begin_twophase(self, transaction.xid)\n"), None)
